@@ -157,7 +157,8 @@ def r12_1(ctx):
         st = [(a2, v, pt) for a2, v, pt, kind in san.stores if kind == 'assign' and a2[0] == 'index' and strip_all(a2[1]) in (P(4), ('deref', P(4)))]
         # the same walk written with an iterator: for pixel in dest[..count].iter_mut() { *pixel = ..; x += 1 }
         it_form = False
-        if not st:
+        n_index = len(st)
+        if True:
             for a2, v, pt, kind in san.stores:
                 if kind != 'assign' or a2[0] != 'deref':
                     continue
@@ -166,6 +167,7 @@ def r12_1(ctx):
                     continue
                 D = Deps(san)
                 D.closure(root[1][2][0])
+                matched = len(st)
                 for x in D.visited:
                     if is_call(x, 'iter_mut') and len(x[2]) == 1:
                         sl = strip_all(x[2][0])
@@ -175,7 +177,10 @@ def r12_1(ctx):
                             f2 = dict(sl[2][1][4])
                             if strip_all(f2.get('end', ('unknown',))) == P(5) and ('start' not in f2 or const_val(f2['start']) == 0):
                                 st.append((a2, v, pt))
-                                it_form = True
+                                it_form = n_index == 0
+                if len(st) == matched and any(x in (P(4), ('deref', P(4))) for x in D.visited):
+                    # some other walk over dest: counts as a store into it (and is not the audited form)
+                    st.append((a2, ('unknown',), pt))
         ok = len(st) == 1
         if ok:
             a2, v, pt = st[0]
@@ -423,4 +428,4 @@ _r18_1b.__name__ = 'r18_1b'
 def run(ctx):
     import engine
     import props.c11 as c11
-    engine.run_rules(ctx, [r12_1, r12_2, r12_3, r12_6, dt.r03_5, dt.r02_6, _r18_1b, c11.r11_2, dt.r06_5])
+    engine.run_rules(ctx, [r12_1, r12_2, r12_3, r12_6, dt.r03_5, dt.r02_6, _r18_1b, c11.r11_2, c11.r11_8, dt.r06_5])
